@@ -2,6 +2,7 @@ import Hgxv.Proofs.C03Cor
 import Hgxv.Proofs.C03Ref
 import Hgxv.Proofs.C03Keep
 import Hgxv.Proofs.C03Full
+import Hgxv.Model.C03Kind
 /-! # C03 - TemporalHypergraph keeps (time, hyperedge) records; windows / snapshots / aggregate agree
 
 Model: `Hgxv/Model/C03.lean` (mirror of `hypergraphx/core/temporal_hypergraph.py` after the `fix:` commits of branch
@@ -337,3 +338,72 @@ example : edgeKeys (fullObj 0).base = [(3, [1, 2, 3])] ∧ getInc (fullObj 0) [1
 example : derive (fullObj 1) .copy ≠ derive (fullObj 1) .tables := by decide
 example : recKey (fullObj 1) [2, 1] (.int 3) = some (3, [1, 2]) ∧ recKey (fullObj 1) [2, 1] (.int 4) = none := by decide
 example : baseState (frun [] fullOps) = run [] (fullOps.filterMap FOp.toBase?) := C03_full_projection fullOps
+
+/-! ## Round e: the kind of an answer is a matter of the options -/
+
+/-- Whatever the content of the object and wherever a window lies: a query is either rejected, or its answer has the
+kind (`Ans.kind`: list of records / map record ↦ metadata / map record ↦ weight / numbers / counts / snapshots / number /
+truth value ...) that the query and its options call for (`Query.kind`); the only content-dependent case is
+`min_time()` / `max_time()`, which answer `±inf` exactly on an object without records.  In particular
+`get_edges(time_window, order|size, up_to, metadata=True)` is a map record ↦ metadata on every store and for every
+window (seeded C03-e1: a fast path for windows that miss every record returned the empty LIST). -/
+theorem C03_answer_kind (s : Store) (q : Query) :
+    answer s q = .rej ∨ (answer s q).kind = q.kind ∨
+      ((q = .minTime ∨ q = .maxTime) ∧ edgeKeys s = [] ∧ (answer s q).kind = .inf) := by
+  have hmin := (C03_min_max_time s).1.1
+  have hmax := (C03_min_max_time s).2.1
+  have hopt : ∀ {α : Type} (o : Option α) (f : α → Ans) (k : Kind), (∀ a, (f a).kind = k) →
+      optAns o f = .rej ∨ (optAns o f).kind = k := by
+    intro α o f k hf
+    cases o with
+    | none => exact Or.inl rfl
+    | some a => exact Or.inr (hf a)
+  cases q with
+  | edges w f m =>
+    cases m <;> simp only [answer, V.answer, Query.kind] <;> (refine Or.imp_right Or.inl ?_; apply hopt; intro _; rfl)
+  | weights f d =>
+    cases d <;> simp only [answer, V.answer, Query.kind] <;> (refine Or.imp_right Or.inl ?_; apply hopt; intro _; rfl)
+  | minTime =>
+    cases h : V.minTime (view s) with
+    | none => refine Or.inr (Or.inr ⟨Or.inl rfl, hmin.mp h, ?_⟩); simp [answer, V.answer, h, Ans.kind]
+    | some t => refine Or.inr (Or.inl ?_); simp [answer, V.answer, h, Ans.kind, Query.kind]
+  | maxTime =>
+    cases h : V.maxTime (view s) with
+    | none => refine Or.inr (Or.inr ⟨Or.inr rfl, hmax.mp h, ?_⟩); simp [answer, V.answer, h, Ans.kind]
+    | some t => refine Or.inr (Or.inl ?_); simp [answer, V.answer, h, Ans.kind, Query.kind]
+  | _ =>
+    simp only [answer, V.answer, Query.kind]
+    first
+      | exact Or.inr (Or.inl rfl)
+      | (refine Or.imp_right Or.inl ?_; apply hopt; intro _; rfl)
+
+/-- A window that selects no record (it lies before the first or after the last time, between two times, is empty or
+inverted - or the object has no records at all) is answered with the EMPTY container of the kind the options call for:
+the empty list of records without `metadata`, the empty map record ↦ metadata with it, whatever the order / size /
+up_to filter (rejected, as always, iff both `order` and `size` are given). -/
+theorem C03_window_miss (s : Store) (a b : Int) (f : Filt) (m : Bool)
+    (hmiss : ∀ k ∈ edgeKeys s, ¬ (a ≤ (k.1 : Int) ∧ (k.1 : Int) < b)) :
+    (f.order.isSome ∧ f.size.isSome → answer s (.edges (.pair a b) f m) = .rej) ∧
+    (¬ (f.order.isSome ∧ f.size.isSome) → answer s (.edges (.pair a b) f m) = if m then .recsMeta [] else .recs []) := by
+  constructor
+  · intro h
+    have := (C03_get_edges_window s a b f).1 h
+    simp only [getEdges] at this
+    cases m <;> simp [answer, V.answer, this, optAns]
+  · intro h
+    obtain ⟨l, hl, hmem⟩ := (C03_get_edges_window s a b f).2 h
+    have hnil : l = [] := by
+      apply List.eq_nil_iff_forall_not_mem.mpr
+      intro k hk
+      have := (hmem k).mp hk
+      exact hmiss k this.1 ⟨this.2.1, this.2.2.1⟩
+    subst hnil
+    simp only [getEdges] at hl
+    cases m <;> simp [answer, V.answer, hl, optAns]
+
+example : answer demoStore (.edges (.pair 6 9) {} true) = .recsMeta [] ∧ answer demoStore (.edges (.pair 6 9) {} false) = .recs [] ∧
+    answer demoStore (.edges (.pair 1 3) { size := some 2 } true) = .recsMeta [] ∧
+    answer (Store.new true) (.edges (.pair 0 5) {} true) = .recsMeta [] ∧
+    (answer demoStore (.edges (.pair 3 5) {} true)).kind = .recsMeta ∧ (answer demoStore (.edges (.pair 3 5) {} false)).kind = .recs ∧
+    (answer demoStore .minTime).kind = .int ∧ (answer (Store.new false) .maxTime).kind = .inf := by decide
+example : ∀ k ∈ edgeKeys demoStore, ¬ ((6 : Int) ≤ (k.1 : Int) ∧ (k.1 : Int) < 9) := by decide
